@@ -149,7 +149,9 @@ class Driver:
         if not w.bound:
             w.bind()
         try:
-            self.FileBuilder.clean(w.cache, self.build_name)
+            # the build name may also be given as None (unknown): a hole
+            name = self.build_name if self.eng.choose('clean-name', 2) == 0 else None
+            self.FileBuilder.clean(w.cache, name)
             impl = ('ok', None)
         except (PathAbort, HarnessError):
             raise
